@@ -24,13 +24,13 @@ CFG = {
     "technique": "Coq proof (induction over record lists; Q/Z inequalities for the quantisers; nth/flat_map layout "
                  "lemmas for the planar arrays) + vm_compute correspondence check",
     "design_ref": "DESIGN.md §4 C15, §5 entry 16",
-    "n_quick": 320, "n_thorough": 6000,
+    "n_quick": 256, "n_thorough": 6000,
     "rule": "random splat clouds (0-12 splats; rotations incl. identity, components exactly +-1, k/128, k/1024, "
             "outside [-1,1]; FDC beyond the displayable range and at byte/clamp boundaries; opacities up to +-800) "
             "through splat.Write/Read; arbitrary and truncated .splat byte strings through splat.Read; SPZ streams "
             "from an independent reference encoder (versions 1-2, SH degree 0-3, fractional bits 0-23 and corner "
-            "counts up to 255, per version 256 single-point degree-3 files in which every byte field takes every value "
-            "0..255 plus 32-value sweeps for degrees 0-2, a fractional-bits x degree grid of two-point files, 24-bit "
+            "counts up to 255, per version 256 single-point files in which every byte field takes every value 0..255 (SH "
+            "bytes: over the two versions together; degrees 0-3 interleaved), a fractional-bits x degree grid of two-point files, 24-bit "
             "corner patterns incl. the bit-23 sign boundary and the bit-22 boundary, half-float patterns (all 65536 "
             "in the thorough tier), 0/1/many points, invalid headers) gzip-ed by compress/gzip into "
             "spz.Read; truncated/trailing/hostile-count SPZ streams; splat clouds with subsets of the 62 SplatPly "
